@@ -189,6 +189,10 @@ def _copy(v):
     return UTPM(v.data.copy()) if isinstance(v, UTPM) else np.array(v, copy=True)
 
 
+# functions for which the tracer has no method (an explicit TypeError / NotImplementedError while recording; DESIGN section 4)
+NO_TRACER_METHOD = {'arcsin', 'arccos', 'arctan', 'sinh', 'cosh', 'tanh', 'cplx:abs2_via_conj'}
+
+
 def run_case(ctx, case):
     rng = gen.rng_of(case)
     p = case['params']
@@ -229,7 +233,11 @@ def run_case(ctx, case):
     except GraphInvariantBroken as e:
         ctx.violation('graph-invariant:' + str(e), {'program': label}); return
     except Exception as e:
-        ctx.skip('not-traceable:' + label); return
+        # the program runs on the unwrapped operands but cannot be recorded: a documented gap of the tracer (no Function method for
+        # these functions) - or a violation of the first sentence of the property
+        if label == 'comp' or label.split('@')[0].split(':')[0] in NO_TRACER_METHOD or label in NO_TRACER_METHOD:
+            ctx.skip('not-traceable:' + label); return
+        ctx.violation('recording-raises:%s' % label, {'program': label, 'rec': p['rec'], 'error': repr(e)[:200]}); return
     # (a) values while recording
     ok, exact, err = _same(y.x, ydirect)
     if not ok:
